@@ -55,6 +55,8 @@ type c01Case struct {
 	To    int      `json:"to,omitempty"`
 	Probe bool     `json:"probe,omitempty"` // SELECT every table just before the ending
 	SQL   string   `json:"sql,omitempty"`   // informational (regenerated on replay)
+	// map iteration order of the in-process run ("" = Go's own; "j:1" = sorted keys, the j-th map range deviating)
+	MapOrder string `json:"map_order,omitempty"`
 }
 
 func (k c01Case) key() string {
@@ -121,16 +123,16 @@ func c01LimitsOf(thorough bool) c01Limits {
 // a created LTSV table that no commit can write
 func c01Alphabet(thorough bool) []string {
 	if thorough {
-		return append(append([]string(nil), c01m.Alphabet...), "S2F", "D2z", "AV", "RV", "IS", "US", "CLX")
+		return append(append([]string(nil), c01m.Alphabet...), "S2F", "D2z", "AV", "RV", "IS", "US", "DJ", "CLX")
 	}
 	// a column rename of the temporary table (same width, other header) and a DELETE that affects nothing belong to the quick tier too: a statement that changes no record must leave
 	// an oddly spelled file byte-identical
-	return append(append([]string(nil), c01m.Alphabet...), "D2z", "RV", "IS")
+	return append(append([]string(nil), c01m.Alphabet...), "D2z", "RV", "IS", "DJ")
 }
 
 func inBase(ops []string) bool {
 	for _, o := range ops {
-		if o == "S2F" || o == "D2z" || o == "AV" || o == "RV" || o == "IS" || o == "US" || o == "CLX" {
+		if o == "S2F" || o == "D2z" || o == "AV" || o == "RV" || o == "IS" || o == "US" || o == "DJ" || o == "CLX" {
 			return false
 		}
 	}
@@ -333,6 +335,13 @@ func (r *c01Runner) one(k c01Case) {
 	// always as the last statement, after at most 2 (3) statements, without the probe variant
 	for i, o := range k.Ops {
 		if o == "LK" && (i != len(k.Ops)-1 || k.Probe || (k.Wrap != "" && !r.c.Thorough()) || len(k.Ops) > map[bool]int{false: 3, true: 4}[r.c.Thorough()]) {
+			return
+		}
+	}
+	// a procedure with the multi-table DELETE is run under every single-range deviation of the map order: it is
+	// kept to procedures of at most 2 (3) statements before the ending, flat in the quick tier
+	for _, o := range k.Ops {
+		if o == "DJ" && (len(k.Ops) > map[bool]int{false: 3, true: 4}[r.c.Thorough()] || (k.Wrap != "" && !r.c.Thorough())) {
 			return
 		}
 	}
@@ -549,7 +558,19 @@ func viewTable(v *query.View) c01m.Table {
 	return t
 }
 
+// c01Inproc runs one procedure in process. A procedure with a statement that names several target tables is run
+// once per map iteration order (c01_order.go): sorted keys at every map range, then each map range deviating.
 func c01Inproc(c *core.Ctx, dir string, k c01Case) {
+	for _, o := range k.Ops {
+		if o == "DJ" {
+			c01WithMapOrders(c, dir, k)
+			return
+		}
+	}
+	c01InprocOrder(c, dir, k)
+}
+
+func c01InprocOrder(c *core.Ctx, dir string, k c01Case) {
 	prog := k.build()
 	st := c01m.NewState()
 	out := c01m.Run(st, prog)
